@@ -1,8 +1,9 @@
 """C17 bounded stand-in: piecewise_variables / piecewise_formula / piecewise_as_variable on the real code.
 
 Bound: every threshold pattern of length K = 2..6, first end closed/open x last end closed/open (K = 2 with both ends open
-excluded: no finite threshold), first finite threshold in {-2.5, 1.0} (quick) + {0.0, 7.25} (thorough), irregular
-increasing gaps, x on a grid of every threshold, every midpoint, points below/above all thresholds and 0.  The real
+excluded: no finite threshold), first finite threshold in {-2.5, 1.0, 0.0, int 0} (quick) + {7.25, -0.5} (thorough), irregular
+increasing gaps, x on a grid of every threshold, every midpoint, points below (first - 3, first - 0.125: negative arguments
+for a first threshold 0) and above all thresholds, and 0.  The real
 Expression trees are evaluated by the compiled engine (get_value_c) on a tiny Database whose rows are the x grid.
 Oracles (independent of the code under test): the documented closed forms
     x_q = min(x, t_{q+1}) | max(0, x - t_q) | max(0, min(x - t_q, t_{q+1} - t_q)),
@@ -32,7 +33,8 @@ BETAS = [0.5, -1.25, 2.0, 3.5, -0.75, 1.75]
 
 
 def patterns(tier):
-    starts = [-2.5, 1.0] if tier == 'quick' else [-2.5, 1.0, 0.0, 7.25]
+    # first finite threshold negative, positive, and exactly zero (float 0.0 and int 0: a closed lower end at 0 is not an open end)
+    starts = [-2.5, 1.0, 0.0, 0] if tier == 'quick' else [-2.5, 1.0, 0.0, 0, 7.25, -0.5]
     for k in range(2, 7):
         for first_open, last_open in itertools.product((False, True), repeat=2):
             if k == 2 and first_open and last_open:
